@@ -209,9 +209,13 @@ def haplotypes_named(comps, tag_words, hap_tags, out_name):
     version, extension), the words primary / curated, and the tag words (a haplotype called m, p or a must not be seen in
     mVulVul1, primary or agp)
     """
-    skip = FIXED_FILE_WORDS | set(tag_words) | set((out_name or "").lower().split("."))
+    rest = list(comps)
+    for c in (out_name or "").lower().split("."):
+        if c in rest:
+            rest.remove(c)  # one occurrence: with -o x.agp and a haplotype called x, x.x.1.primary.curated.agp still names x
+    skip = FIXED_FILE_WORDS | set(tag_words)
     haps = sorted((h.lower() for h in hap_tags), key=len, reverse=True)
-    return {next((h for h in haps if c.startswith(h)), None) for c in comps if c not in skip} - {None}
+    return {next((h for h in haps if c.startswith(h)), None) for c in rest if c not in skip} - {None}
 
 
 def file_matches(fname, dest, hap_tags, haplotypes_only, out_name=None):
